@@ -391,7 +391,7 @@ theorem bread_core {g : Cfg} {a : Rec} {tail : Bytes} {pr : Bool} {rest : List H
   have hcapK : g.KA.cap = alignedBufsize g.b := rfl
   have hstep := C07.handler_step c r _ hph
   rcases readAll_runA hK (L := g.L1) (P := []) rest [] prop
-      (2 * ((g.KA.C.length - (accOf sub).length) / 64) + 2 * c.env.tr.input.length + 2) (handlerFuel c.env r)
+      (2 * ((g.KA.C.length - (accOf sub).length) / 64) + 2 * c.env.tr.input.length + 2) ((handlerFuel c.env r + scriptOf c))
       r sub c.env dO 1 (by omega) (by omega) (fun h => by omega) hb hs with
     ⟨r', acc', e', dO', d1, d3, d5, d6, d8, d9, d10⟩ |
     ⟨r', acc, lost, e', f', d1, d2, d3, d4, d5, d6, d7, d8⟩
